@@ -261,9 +261,12 @@ func c20(args []string) error {
 			}
 			alphas := make([]dyadic, k)
 			af := make([]float64, k)
-			mode := r.Intn(4)
+			mode := r.Intn(5)
 			for j := range alphas {
 				switch mode {
+				case 4:
+					// tiny shapes only: a variate underflows to exactly 0 with probability exp(-709 a) (6 % at 1/256)
+					alphas[j] = []dyadic{{1, 256}, {1, 128}, {3, 256}, {1, 256}}[r.Intn(4)]
 				case 0:
 					alphas[j] = shapes[r.Intn(len(shapes))]
 				case 1:
